@@ -152,6 +152,19 @@ func pagingScript(rng *rand.Rand, variant int) []Op {
 		dirs = append(dirs, mk("big", 70+rng.Intn(10), []int{2, 3, 4, 20, 30, 33, 61, 62, 68}, true))
 		dirs = append(dirs, mk("tail", 12, []int{10}, false)) // hole right before the last entry
 	}
+	// a request on the directory that fails after it has touched the name cache (RENAME to a name that is too
+	// long removes the old name first), then the old name is asked for again: listings must still show every
+	// entry exactly once and nothing that is not there
+	for _, dh := range dirs[:1] {
+		v := s.add(Op{Proc: "create", H: dh, Name: "victim"})
+		_ = v
+		s.add(Op{Proc: "rename", H: dh, Name: "victim", H2: dh, Name2: strings.Repeat("v", 200)})
+		s.add(Op{Proc: "lookup", H: dh, Name: "victim"})
+		s.add(Op{Proc: "create", H: dh, Name: "victim", Mode: 1}) // guarded: must report that it exists
+		s.add(Op{Proc: "enum", H: dh, Count: 4096})
+		s.add(Op{Proc: "remove", H: dh, Name: "victim"})
+		s.add(Op{Proc: "enum", H: dh, Count: 300, Mode: 1, Maxcount: 1 << 20, Dircount: 1 << 20})
+	}
 	dirs = append(dirs, "root")
 	counts := []uint64{0, 1, 64, 90, 97, 98, 100, 101, 128, 150, 200, 256, 300, 400, 512, 600, 1000, 4096, 8192, 1 << 20}
 	for _, dh := range dirs {
